@@ -29,6 +29,7 @@ type ndpDriver struct {
 	steps  int
 	infra  string
 	known  []string // loop positions as of the last logged line
+	stress int32    // > 0 while overlapping API calls are in flight
 }
 
 func copyAddr(a packet.Addr) packet.Addr { return packet.Addr{MAC: packet.CopyMAC(a.MAC), IP: a.IP} }
@@ -49,6 +50,7 @@ func (d *ndpDriver) install() {
 			c.add(evt{kind: "check", loop: kv[0].(int), addr: copyAddr(kv[1].(packet.Addr)), b1: kv[2].(bool), b2: kv[3].(bool), b3: kv[4].(bool)})
 			c.mu.Unlock()
 		case "ndp.start":
+			stall(&d.stress)
 			c.mu.Lock()
 			c.add(evt{kind: "start", addr: copyAddr(kv[0].(packet.Addr)), b1: kv[1].(bool)})
 			c.mu.Unlock()
@@ -259,6 +261,25 @@ func (d *ndpDriver) step(a action) (rec map[string]interface{}) {
 		} else {
 			time.Sleep(300 * time.Microsecond)
 		}
+		c.waitFor(stepWait, func() bool {
+			for _, l := range c.order[n0:] {
+				if l.pos == "new" {
+					return false
+				}
+			}
+			return true
+		})
+		rec["spawned"] = c.nLoops() - n0
+	case "cstart": // n overlapping StartHunt calls for one address, released together
+		n0 := c.nLoops()
+		n := a.i("n")
+		if n < 2 {
+			n = 2
+		}
+		addr := d.addr(a)
+		rec["errs"] = concurrently(n, &d.stress, func() bool { _, err := d.h.StartHunt(addr); return err != nil })
+		rec["n"] = n
+		time.Sleep(time.Millisecond) // every goroutine the calls spawned has announced itself by now
 		c.waitFor(stepWait, func() bool {
 			for _, l := range c.order[n0:] {
 				if l.pos == "new" {
